@@ -67,6 +67,11 @@ def decorate(rng, doc):
                                               ["poly", [[docs.fnum(3.0), 1], [docs.fnum(0.125), 3]]]])
             t.update(kind=rng.choice(["abstime", "reltime"]), unit=rng.choice([None, "s", "ms"]), epoch=rng.choice([None, "TAI", "2000-01-01T00:00:00"]),
                      offset_from=rng.choice([None, "SRC_SEQ_CTR"]))
+            r = rng.random()
+            if r < 0.06:      # the writer refuses a time type with a spline (ValueError): the model's writer must refuse as well
+                t["enc"]["default"] = ["spline", 1, True, [[docs.fnum(0.0), docs.fnum(0.0)], [docs.fnum(255.0), docs.fnum(25.5)]]]
+            elif r < 0.10:    # ... and a time type whose data encoding is not numeric
+                t["enc"] = {"t": "str", "charset": "US-ASCII", "size": ["fixed", 8]}
         if t["kind"] == "enum" and rng.random() < 0.3:
             # an enumeration over a STRING field: the keys are the encoded texts
             cs_ = rng.choice(["UTF-8", "ISO-8859-1", "UTF-16BE", "UTF-16LE", "UTF-16", "UTF-16"])
